@@ -188,7 +188,9 @@ fn validate_type_arguments(
       (&type_param.bound, subst_map.get(&type_param.name))
     {
       let substituted_bound = Type::Nominal(type_system::subst_nominal_type(bound, subst_map));
-      if !solved_type_argument.is_the_same_type(&substituted_bound)
+      // A class object (`Foo` itself) is not an instance of `Foo`, although the two types have the same name.
+      let is_class_object = solved_type_argument.as_nominal().is_some_and(|n| n.is_class_statics);
+      if (is_class_object || !solved_type_argument.is_the_same_type(&substituted_bound))
         && !cx.is_subtype(solved_type_argument, &substituted_bound)
       {
         cx.error_set.report_incompatible_subtype_error(
